@@ -36,6 +36,7 @@
 #include "Estimation/KrigingCalcul.hpp"
 #include "Matrix/MatrixRectangular.hpp"
 #include "Matrix/MatrixSquareSymmetric.hpp"
+#include "Matrix/MatrixFactory.hpp"
 #include <new>
 // override: error printing (variadic, iostream) is not part of the property
 void messerr(const char*, ...) {}
@@ -66,7 +67,11 @@ enum Input { I_Z, I_Means, I_Sigma, I_X, I_Sigma0, I_X0, I_Sigma00, I_PriorMean,
 struct Dep { int memo; int inputs[8]; int memos[12]; };
 static const Dep DEPS[] = {
   {M_InvSigma, {I_Sigma, -1}, {-1}},
+#ifdef VF_MUTANT // self-test of the check: a dependency the code does not have (must give a replayed violation in k_setData)
+  {M_InvPriorCov, {I_PriorCov, I_Z, -1}, {-1}},
+#else
   {M_InvPriorCov, {I_PriorCov, -1}, {-1}},
+#endif
   {M_XtInvSigma, {I_X, -1}, {M_InvSigma, -1}},
   {M_Sigmac, {I_X, I_flagBayes, -1}, {M_XtInvSigma, M_InvPriorCov, -1}},
   {M_Beta, {I_Z, I_PriorMean, I_flagBayes, -1}, {M_Sigmac, M_XtInvSigma, M_InvPriorCov, -1}},
@@ -142,7 +147,7 @@ template <class M> static const M* pick2(const M* a, const M* b)
   return vf_nondet_bool() ? r : (const M*)nullptr;
 }
 
-static void prestate()
+static void prestate(int nbfl_fixed = -1)
 {
   closure();
   kc = new KrigingCalcul();
@@ -175,6 +180,7 @@ static void prestate()
   // parameters: arbitrary
   kc->_neq     = vf_range(0, 3);
   kc->_nbfl    = vf_range(0, 3);
+  if (nbfl_fixed >= 0) kc->_nbfl = nbfl_fixed; // k_setXvalidUnique sizes local matrices with it
   kc->_nrhs    = vf_range(0, 3);
   pNcck = kc->_ncck = vf_range(0, 3);
   kc->_nxvalid      = vf_range(0, 3);
@@ -263,6 +269,36 @@ extern "C" void k_setBayes()
   const MatrixSquareSymmetric* PriorCov  = pick(new MatrixSquareSymmetric(1));
   (void)kc->setBayes(PriorMean, PriorCov);
   CHECK("setBayes")
+  vf_witness();
+}
+
+// ---- setXvalidUnique: the matrix algebra of _patchRHSForXvalidUnique is overridden (results are dummy 1x1 objects,
+// inversions succeed or fail arbitrarily); what is checked is the bookkeeping: the call installs a new Sigma0 / X0 /
+// Sigma00, so everything that depends on them must be null afterwards.
+static bool g_invert_fails[4];
+static int  c_invert;
+int AMatrix::invert() { return g_invert_fails[c_invert++ & 3] ? 1 : 0; }
+void AMatrix::linearCombination(double, const AMatrix*, double, const AMatrix*, double, const AMatrix*) {}
+void AMatrix::prodMatMatInPlace(const AMatrix*, const AMatrix*, bool, bool) {}
+void AMatrixDense::prodMatMatInPlace(const AMatrix*, const AMatrix*, bool, bool) {}
+void AMatrix::prodNormMatMatInPlace(const AMatrix*, const AMatrix*, bool) {}
+AMatrix* MatrixFactory::prodMatMat(const AMatrix*, const AMatrix*, bool, bool) { return new MatrixRectangular(1, 1); }
+MatrixRectangular* MatrixRectangular::sample(const AMatrix*, const VectorInt&, const VectorInt&, bool, bool) { return new MatrixRectangular(1, 1); }
+void MatrixRectangular::unsample(const AMatrix*, const VectorInt&, const VectorInt&, bool, bool) {}
+MatrixSquareSymmetric* MatrixSquareSymmetric::sample(const MatrixSquareSymmetric*, const VectorInt&, bool) { return new MatrixSquareSymmetric(1); }
+
+extern "C" void k_setXvalidUnique()
+{
+  for (int nbfl = 0; nbfl <= 1; nbfl++)
+  {
+    prestate(nbfl);
+    for (int i = 0; i < 4; i++) g_invert_fails[i] = vf_nondet_bool();
+    c_invert = 0;
+    const VectorInt* eqs  = pick(new VectorInt(1)); // one cross-validated equation, or absent (sizes of the local matrices)
+    const VectorInt* vars = pick(new VectorInt(1));
+    (void)kc->setXvalidUnique(eqs, vars);
+    CHECK("setXvalidUnique")
+  }
   vf_witness();
 }
 
